@@ -1,4 +1,6 @@
 """C02 - input parser conforms to the VT500 state machine plus documented extensions."""
+import vselftest
+from checks import selfmut
 import json
 
 
@@ -39,6 +41,12 @@ def main(c):
         c.model_check(specs, "MC_VT500.tla", "MC_VT500.cfg" if c.tier == "quick" else "MC_VT500_deep.cfg", workers=16)
     td = c.drive(drv, "c02", replay=c.replay)
     rejects, _ = c.validate_traces(specs, "VT500_Trace.tla", "VT500_Trace.cfg", td)
+    if not c.replay:
+        c.cov["binding_selftest"] = vselftest.run(c, specs, "VT500_Trace.tla", "VT500_Trace.cfg", td, {r["scn"] for r in rejects}, [
+            ("first delivered sequence missing", selfmut.item_dropped),
+            ("end marker missing", selfmut.eof_dropped),
+            ("parser panicked", selfmut.parser_panicked),
+        ])
     idx = c.load_index(td)
     c.count_distinct(idx, nontrivial=lambda s: True)
     for s in list(idx.values())[:4]:
